@@ -120,6 +120,8 @@ def rules(rep, idx, fixture):
         # an accepted layout is never refused at elaboration for want of one more doubling of the shadow
         _glue16.shadow_give_up_bound(rep, idx, "C19.17")
         negative_slice_bounds(rep, idx)
+        rep.require("C19.21", 1)
+        asserted_parameters(rep, idx)
         rep.require("C19.20", 1)
         _glue16.view_safe_operations(rep, "C19.20", idx)
         division_after_validation(rep, idx)
@@ -431,6 +433,72 @@ def division_after_validation(rep, idx, rule="C19.19"):
                 else:
                     rep.unk(rule, f.site, what, f"`{p}` is divided by and nothing in this function validates it")
     rep.ok(rule, "-", "divisions by parameters come after their validation", f"{n} division(s) by a parameter examined", nontrivial=n > 0)
+
+
+# ---- C19.21 what a private helper asserts about a public parameter, the public side refuses --------------------------
+def asserted_parameters(rep, idx, rule="C19.21"):
+    """An `assert` states what the code relies on; it is not a refusal (python -O removes it, and when it does fire the caller sees
+    a bare AssertionError).  When the value a private helper asserts something about is a *public constructor parameter* handed
+    through unchanged -- `Multiplexer(shadow_overlaps=...)` -> `self._shadow_overlaps` -> `_Shadow(..., overlaps)` -> `assert overlaps
+    is None or isinstance(overlaps, int) and overlaps >= 0` -- the public constructor has to refuse the bad values itself.  Otherwise
+    an illegal argument is accepted and the component dies with an internal AssertionError when it is elaborated."""
+    n = 0
+    funcs = list(idx.all_functions())
+    for g in funcs:
+        gparams = [p for p in g.params if p not in ("self", "cls")]
+        asserts = []
+        for a in ast.walk(g.node):
+            if isinstance(a, ast.Assert):
+                names = {x.id for x in ast.walk(a.test) if isinstance(x, ast.Name)}
+                about = [p for p in gparams if p in names]
+                if about and not any(isinstance(x, ast.Attribute) and isinstance(x.value, ast.Name) and x.value.id == "self" for x in ast.walk(a.test)):
+                    asserts.append((a, about))
+        if not asserts:
+            continue
+        # call sites of g: Cls(...) for a constructor, x.name(...) / name(...) otherwise
+        gname = g.cls.name if (g.name == "__init__" and g.cls is not None) else g.name
+        for f in funcs:
+            if f.cls is None or f is g:
+                continue
+            for call in ast.walk(f.node):
+                if not isinstance(call, ast.Call):
+                    continue
+                cn = call.func.attr if isinstance(call.func, ast.Attribute) else (call.func.id if isinstance(call.func, ast.Name) else None)
+                if cn != gname:
+                    continue
+                binding = dict(zip(gparams, call.args))
+                binding.update({k.arg: k.value for k in call.keywords if k.arg})
+                for a, about in asserts:
+                    for p in about:
+                        arg = binding.get(p)
+                        if arg is None:
+                            continue
+                        # the actual argument is self.<attr> that __init__ stores straight from a constructor parameter q
+                        q = None
+                        init = f.cls.method("__init__")
+                        if isinstance(arg, ast.Attribute) and isinstance(arg.value, ast.Name) and arg.value.id == "self" and init is not None:
+                            for st in ast.walk(init.node):
+                                if isinstance(st, ast.Assign) and len(st.targets) == 1 and isinstance(st.targets[0], ast.Attribute) and \
+                                        isinstance(st.targets[0].value, ast.Name) and st.targets[0].value.id == "self" and \
+                                        st.targets[0].attr == arg.attr and isinstance(st.value, ast.Name) and st.value.id in init.params:
+                                    q = st.value.id
+                        elif isinstance(arg, ast.Name) and f.name == "__init__" and arg.id in f.params:
+                            q, init = arg.id, f
+                        if q is None or f.cls.name.startswith("_"):
+                            continue
+                        n += 1
+                        refusals = [x for x in ast.walk(init.node) if isinstance(x, ast.If) and any(isinstance(y, ast.Raise) for y in ast.walk(x)) and
+                                    any(isinstance(y, ast.Name) and y.id == q for y in ast.walk(x.test))]
+                        what = f"{f.cls.qual}({q}=...) reaches `assert {ast.unparse(a.test)[:70]}` in {g.qual}"
+                        if refusals:
+                            rep.ok(rule, init.site, what, f"the constructor refuses on `{q}` first (line {refusals[0].lineno})", nontrivial=False)
+                        else:
+                            rep.bad(rule, init.site, what,
+                                    f"the public parameter `{q}` is stored and handed on unchecked; the only statement about its legal values is this "
+                                    f"assert in a private helper: an illegal `{q}` is accepted by the constructor and the component fails with a bare "
+                                    "AssertionError when it is elaborated (and is not checked at all under python -O)", line=a.lineno)
+    rep.ok(rule, "-", "what private helpers assert about public parameters is refused by the public constructor", f"{n} parameter path(s) examined",
+           nontrivial=n > 0)
 
 
 # ---- C19.11 identity comparison between values -------------------------------------------------------------------
